@@ -36,7 +36,7 @@ def n_cases(tier):
 
 
 def gen_case(rng, tier, idx):
-    return {"root_aw": rng.choice([3, 4, 5, 6, 7, 8, 9, 10, 11, 12]), "depth": rng.randint(1, 5),
+    return {"root_aw": rng.choice([3, 4, 5, 6, 7, 8, 9, 10, 11, 12, 12, 16, 24, 32, 54, 64]), "depth": rng.randint(1, 5),
             "root_dw": rng.choice([8, 8, 16, 32, 64])}
 
 
@@ -152,12 +152,42 @@ def run_case(case):
             mon.ok("find_missing_keyerror", not found, f"find_resource({obj!r}) did not raise KeyError")
         # every address of the root
         owner = {}
-        for rid, _p, s, e, _w in exp:
-            for a in range(s, e):
-                if a in owner:
-                    mon.fail("ranges_overlap", f"translated ranges overlap at address {a}")
-                owner[a] = rid
-        for a in range(1 << root.addr_width):
+        if root.addr_width <= 12:
+            for rid, _p, s, e, _w in exp:
+                for a in range(s, e):
+                    if a in owner:
+                        mon.fail("ranges_overlap", f"translated ranges overlap at address {a}")
+                    owner[a] = rid
+        else:
+            spans = sorted((s, e, rid) for rid, _p, s, e, _w in exp)
+            for (s0, e0, _r0), (s1, _e1, _r1) in zip(spans, spans[1:]):
+                if s1 < e0:
+                    mon.fail("ranges_overlap", f"translated ranges overlap at address {s1}")
+
+            class Owner:
+                def __contains__(self, a):
+                    return self.get(a) is not None
+
+                def get(self, a):
+                    import bisect
+                    i = bisect.bisect_right(spans, (a, float("inf"), 0)) - 1
+                    return spans[i][2] if i >= 0 and spans[i][0] <= a < spans[i][1] else None
+
+                def __getitem__(self, a):
+                    return self.get(a)
+            owner = Owner()
+        if root.addr_width <= 12:
+            probe = range(1 << root.addr_width)
+        else:
+            # space too large to enumerate: every range boundary +-1, a sample inside every range, random holes
+            top = 1 << root.addr_width
+            cand = {0, top - 1}
+            for _rid, _p, s_, e_, _w in exp:
+                cand.update((s_ - 1, s_, s_ + 1, e_ - 2, e_ - 1, e_, (s_ + e_) // 2, rng.randrange(s_, e_)))
+            cand.update(rng.randrange(top) for _ in range(200))
+            probe = sorted(a for a in cand if 0 <= a < top)
+            mon.count("large_space_sampled_addresses", len(probe))
+        for a in probe:
             d = root.decode_address(a)
             if a in owner:
                 mon.ok("decode_hit", d is not None and id(d) == owner[a],
